@@ -20,7 +20,7 @@ pub proof fn lemma_thompson_sub_wf(n: Nfa)
 /// d is the minimized epsilon-elimination automaton of the Thompson automaton of `ast` (built on registry reg0)
 pub open spec fn la_compiled(ast: Ast, reg0: Seq<Ast>, d: CompiledDfa) -> bool {
     exists|n: Nfa, d0: CompiledDfa, reps: Seq<StateID>| ids_ok(n) && n.states@.len() >= 1 && #[trigger] nfa_view(n) == thompson(ast, reg0).0
-        && #[trigger] elim_ok(g_nfa(n), d0, reps) && d0.terminal_ids@ == seq![TerminalID(n.pattern.token_type as u32)] && d == spec_minimize(d0)
+        && #[trigger] elim_ok(g_nfa(n), d0, reps) && d0.terminal_ids@ == seq![TerminalID(n.pattern.token_type as u32)] && min_of(d0, d)
 }
 /// registry after compiling the lookaheads of the first i patterns, in order
 pub open spec fn la_reg(pats: Seq<Pattern>, i: int, reg: Seq<Ast>) -> Seq<Ast>
@@ -31,8 +31,10 @@ pub open spec fn la_reg(pats: Seq<Pattern>, i: int, reg: Seq<Ast>) -> Seq<Ast>
         match pats[i - 1].lookahead { Some(la) => thompson(spec_parse(la.pattern@), r).1, None => r }
     }
 }
+/// size assumption for one lookahead: the construction stays below the id width, and so does its result
+pub open spec fn la_fit1(ast: Ast, reg: Seq<Ast>) -> bool { th_fits(ast, reg) && thompson(ast, reg).0.states.len() < u32::MAX }
 pub open spec fn la_fits(pats: Seq<Pattern>, reg: Seq<Ast>) -> bool {
-    forall|i: int| 0 <= i < pats.len() ==> ((#[trigger] pats[i]).lookahead matches Some(la) ==> th_fits(spec_parse(la.pattern@), la_reg(pats, i, reg)))
+    forall|i: int| 0 <= i < pats.len() ==> ((#[trigger] pats[i]).lookahead matches Some(la) ==> la_fit1(spec_parse(la.pattern@), la_reg(pats, i, reg)))
 }
 pub open spec fn tid_of(p: Pattern) -> TerminalID { TerminalID(p.token_type as u32) }
 /// the lookahead stored for token type tid after the first k patterns: that of the LAST pattern among them with a lookahead and that token type
@@ -55,4 +57,18 @@ pub open spec fn mp_built(pats: Seq<Pattern>, reg0: Seq<Ast>, m: MultiPatternNfa
     &&& m.nfas@.len() == pats.len() && m.patterns@ == pats
     &&& forall|i: int| 0 <= i < pats.len() ==> nfa_view(#[trigger] m.nfas@[i]) == v_shift(mp_th(pats, pats.len() as int, reg0).0[i], mp_off(pats, i, reg0))
             && n_off(m.nfas@[i]) == mp_off(pats, i, reg0) && m.nfas@[i].pattern.token_type == pats[i].token_type
+}
+/// the union has exactly the states counted by mp_off
+pub proof fn lemma_mp_bound(pats: Seq<Pattern>, reg0: Seq<Ast>, m: MultiPatternNfa)
+    requires mp_built(pats, reg0, m)
+    ensures g_mp(m).bound == mp_off(pats, pats.len() as int, reg0)
+{
+    let n = pats.len() as int;
+    if n > 0 {
+        let i = n - 1;
+        let nn = m.nfas@[i];
+        assert(nfa_view(nn) == v_shift(mp_th(pats, n, reg0).0[i], mp_off(pats, i, reg0)));
+        assert(nfa_view(nn).states.len() == nn.states@.len());
+        assert(v_shift(mp_th(pats, n, reg0).0[i], mp_off(pats, i, reg0)).states.len() == mp_th(pats, n, reg0).0[i].states.len());
+    }
 }
